@@ -57,6 +57,14 @@ def k_tlv(ctx, t, value, suffix=""):
     ctx.check("tlv.unpack", u == o and o == u, "eq", "", case)
     ok, rp = attempt(u.pack)
     ctx.check("tlv.unpack", ok and bytes(rp) == want, "repack", "", case)
+    # the type of an existing TLV changed through its setter (on the packed original and on the decoded object)
+    for label, obj in (("constructed", o), ("unpacked", u)):
+        t2 = R.TLV_TYPES[(R.TLV_TYPES.index(t) + 1 + len(v)) % len(R.TLV_TYPES)]
+        ok, _ = attempt(setattr, obj, "tlv_type", X.TlvType(t2))
+        ok2, p2 = attempt(obj.pack) if ok else (False, _)
+        ctx.check("tlv.pack", ok and ok2 and bytes(p2) == R.tlv(t2, v) and int(obj.tlv_type) == t2 and obj.packet_len == len(v) + 2, "octets_after_type_setter", label, case,
+                  observed=bytes(p2)[:8] if ok2 else repr(p2), expected=R.tlv(t2, v)[:8])
+        attempt(setattr, obj, "tlv_type", X.TlvType(t))
     ISO.remember(u, want, "tlv")
     ISO.recheck(ctx, "concrete.decoded_objects_independent", case)
 
@@ -176,6 +184,8 @@ def k_concrete(ctx, name, p, suffix=""):
         "holder_generic": lambda: getattr(X.TlvHolder(X.CfdpTlv.unpack(want)), HOLDER[name])(),
         "holder_concrete": lambda: getattr(X.TlvHolder(o), HOLDER[name])(),
     }
+    ok, ht = attempt(lambda: (int(X.TlvHolder(o).tlv_type), int(X.TlvHolder(X.CfdpTlv.unpack(want)).tlv_type)))
+    ctx.check("concrete.len", ok and ht == (TYPE_OF[name], TYPE_OF[name]), "holder_type_view", name, case, observed=repr(ht))
     for rname, fn in routes.items():
         ok, u = attempt(fn)
         if not ctx.check("concrete.unpack", ok, "raised", f"{name}/{rname}/" + (exc_sig(u) if not ok else ""), case, error=repr(u)):
